@@ -56,8 +56,7 @@ CheckOK(o) ==
 
 ObsOK(o) == IF o.cmd = "gen" THEN GenOK(o) ELSE IF o.cmd = "check" THEN CheckOK(o) ELSE FALSE
 
-Bad == {l \in DOMAIN Obs : ~ObsOK(Obs[l])}
-
+\* one line per rejected observation, then the completion marker
+ASSUME \A l \in DOMAIN Obs : ObsOK(Obs[l]) \/ PrintT(<<"BADOBS", l>>)
 ASSUME PrintT(<<"JUDGED", Len(Obs)>>)
-ASSUME PrintT(<<"BAD", Bad>>)
 =============================================================================
